@@ -91,6 +91,12 @@ let make_target (spec : string) : target option =
       let ct = ct_of_string ct and w = int_of_string w and h = int_of_string h in
       let nb = Graphics.buffer_size ct (n w) (n h) in
       Some { tw = w; th = h; bwr = (bwr = "1"); ct; blen = i nb; nw = n w; nh = n h; nblen = nb }
+  | ["var"; ct; w; h; bwr; slack] ->
+      (* backing storage [slack] bytes longer than the part buffer() exposes: the model addresses the exposed part
+         only ([nblen]); the start patterns cover the whole storage ([blen]) and the tail must never change *)
+      let ct = ct_of_string ct and w = int_of_string w and h = int_of_string h in
+      let nb = Graphics.buffer_size ct (n w) (n h) in
+      Some { tw = w; th = h; bwr = (bwr = "1"); ct; blen = i nb + int_of_string slack; nw = n w; nh = n h; nblen = nb }
   | _ -> failwith ("target " ^ spec)
 
 type pres = PPanic | PChanges of (int * int) list
